@@ -219,7 +219,7 @@ func (e *Engine) siteStore(st *State, fr *Frame, loc *Loc, val Val, pos token.Po
 		return
 	}
 	owner := Val{T: types.NewPointer(loc.Root), L: []string{loc.Obj}}
-	e.siteEvent(st, fr, "store", cls, map[string]Val{"$val": val, "$obj": owner}, pos)
+	e.siteEvent(st, fr, "store", cls, map[string]Val{"$val": val, "$obj": owner, "$chanclass": Val{T: types.Typ[types.String], L: []string{e.strConst(cls)}}}, pos)
 }
 
 // ---------- guards ----------
@@ -693,11 +693,25 @@ func (e *Engine) bindParams(fn *ssa.Function, sig *types.Signature, args []Val) 
 }
 
 func (e *Engine) checkRequires(st *State, fr *Frame, ct *Contract, fn *ssa.Function, args []Val, pos token.Pos, how string) {
+	e.checkRequiresB(st, fr, ct, fn, args, nil, pos, how)
+}
+
+func (e *Engine) checkRequiresB(st *State, fr *Frame, ct *Contract, fn *ssa.Function, args []Val, bind []Val, pos token.Pos, how string) {
 	var sig *types.Signature
 	if fn != nil {
 		sig = fn.Signature
 	}
 	names := e.bindParams(fn, sig, args)
+	if fn != nil {
+		// captured variables of a closure are visible to its contract by name
+		for i, fv := range fn.FreeVars {
+			if i < len(bind) {
+				if r := bind[i].ref(0); r != nil && r.Loc != nil {
+					names[fv.Name()] = e.load(st, r.Loc)
+				}
+			}
+		}
+	}
 	site := map[string]Val{}
 	for i, a := range args {
 		site[fmt.Sprintf("$%d", i)] = a
@@ -750,9 +764,12 @@ func (e *Engine) applyContract(st *State, fr *Frame, ct *Contract, name string, 
 			} else if strings.HasPrefix(m, "ghost:") {
 				g := strings.TrimPrefix(m, "ghost:")
 				st.ghost[g] = e.smt.Fresh("g_"+g, SInt)
-			} else if m == "chanclosed" {
-				e.heapArr(st, "chanclosed", arraySort(SU, SBool))
-				e.havocHeapArr(st, "chanclosed")
+			} else if strings.HasPrefix(m, "chanclosed") {
+				for n := range e.heapSorts {
+					if strings.HasPrefix(n, "chanclosed!") {
+						e.havocHeapArr(st, n)
+					}
+				}
 			} else {
 				e.havocField(st, m)
 			}
@@ -760,7 +777,7 @@ func (e *Engine) applyContract(st *State, fr *Frame, ct *Contract, name string, 
 	} else if !ct.Extern {
 		if fn != nil && len(fn.Blocks) > 0 {
 			// no declared frame: infer what the callee (transitively) may write from its current code
-			e.applyMods(st, fr, e.fnMods(fn))
+			e.applyMods(st, fr, e.fnMods(fn), false)
 		} else {
 			e.havocAll(st)
 		}
@@ -943,10 +960,19 @@ func (e *Engine) builtin(st *State, fr *Frame, instr ssa.Instruction, b *ssa.Bui
 		} else if d, ok := instr.(*ssa.Defer); ok {
 			desc = e.describe(d.Call.Args[0])
 		}
+		cls := "?"
+		if call, ok := instr.(*ssa.Call); ok {
+			cls = e.chanClass(call.Call.Args[0])
+		} else if d, ok := instr.(*ssa.Defer); ok {
+			cls = e.chanClass(d.Call.Args[0])
+		}
+		if cls == "" {
+			cls = "?"
+		}
 		e.siteEvent(st, fr, "close", desc, map[string]Val{"$chan": ch}, pos)
-		e.safety(st, "assert", "close-of-closed:"+desc, mkNot(e.chanClosed(st, ch.term())), pos)
+		e.safety(st, "assert", "close-of-closed:"+desc, mkNot(e.chanClosed(st, ch.term(), cls)), pos)
 		e.safety(st, "nil", "close-of-nil:"+desc, mkNot(mkEq(ch.term(), "nil")), pos)
-		e.setChanClosed(st, ch.term(), "true")
+		e.setChanClosed(st, ch.term(), cls, "true")
 		k(st, Val{T: resT}, false)
 	case "recover":
 		if st.panicking {
@@ -1076,11 +1102,12 @@ type modSet struct {
 	dyn      bool
 	all      bool
 	chans    bool
+	closedCls map[string]bool
 }
 
 func newModSet() *modSet {
 	return &modSet{allocs: map[*ssa.Alloc]bool{}, freevars: map[*ssa.FreeVar]bool{}, fields: map[string]bool{}, elems: map[string]types.Type{},
-		maps: map[string]*types.Map{}, ranges: map[*ssa.Range]bool{}, callees: map[string]bool{}}
+		maps: map[string]*types.Map{}, ranges: map[*ssa.Range]bool{}, callees: map[string]bool{}, closedCls: map[string]bool{}}
 }
 
 func addrRoot(v ssa.Value) ssa.Value {
@@ -1152,6 +1179,11 @@ func (e *Engine) scanMods(ms *modSet, fn *ssa.Function, blocks map[*ssa.BasicBlo
 				}
 			case *ssa.Send:
 			case ssa.CallInstruction:
+				if _, isGo := ins.(*ssa.Go); isGo {
+					// a spawned goroutine runs concurrently: its effects are covered by the lock discipline
+					// (guarded state is havocked at every Lock) and by the declared unsync/ownership assumptions
+					continue
+				}
 				c := x.Common()
 				if bi, ok := c.Value.(*ssa.Builtin); ok {
 					switch bi.Name() {
@@ -1163,7 +1195,11 @@ func (e *Engine) scanMods(ms *modSet, fn *ssa.Function, blocks map[*ssa.BasicBlo
 							ms.elems[typeKey(sl.Elem())] = sl.Elem()
 						}
 					case "close":
-						ms.chans = true
+						cls := e.chanClass(c.Args[0])
+						if cls == "" {
+							cls = "?"
+						}
+						ms.closedCls[cls] = true
 					}
 					continue
 				}
@@ -1210,7 +1246,12 @@ func (e *Engine) scanMods(ms *modSet, fn *ssa.Function, blocks map[*ssa.BasicBlo
 						if ct.HasMod {
 							e.addContractMods(ms, ct)
 						} else if !ct.Extern {
-							ms.all = true
+							if len(f.Blocks) > 0 && !seen[f] {
+								seen[f] = true
+								e.scanMods(ms, f, nil, seen, false)
+							} else if len(f.Blocks) == 0 {
+								ms.all = true
+							}
 						}
 						continue
 					}
@@ -1280,6 +1321,9 @@ func (ms *modSet) merge(o *modSet) {
 	ms.all = ms.all || o.all
 	ms.dyn = ms.dyn || o.dyn
 	ms.chans = ms.chans || o.chans
+	for k := range o.closedCls {
+		ms.closedCls[k] = true
+	}
 }
 
 func (e *Engine) addContractMods(ms *modSet, ct *Contract) {
@@ -1296,7 +1340,7 @@ func (e *Engine) addContractMods(ms *modSet, ct *Contract) {
 	}
 }
 
-func (e *Engine) applyMods(st *State, fr *Frame, ms *modSet) {
+func (e *Engine) applyMods(st *State, fr *Frame, ms *modSet, loop bool) {
 	if ms.all {
 		e.havocAll(st)
 	}
@@ -1345,9 +1389,16 @@ func (e *Engine) applyMods(st *State, fr *Frame, ms *modSet) {
 	for _, mt := range ms.maps {
 		e.havocMapType(st, mt)
 	}
-	if ms.chans || ms.dyn {
-		e.heapArr(st, "chanclosed", arraySort(SU, SBool))
-		e.havocHeapArr(st, "chanclosed")
+	if ms.chans || ms.closedCls["?"] {
+		for n := range e.heapSorts {
+			if strings.HasPrefix(n, "chanclosed!") {
+				e.havocHeapArr(st, n)
+			}
+		}
+	}
+	for cls := range ms.closedCls {
+		e.chanClosedArr(st, cls)
+		e.havocHeapArr(st, sanitize("chanclosed!"+cls))
 	}
 	for r := range ms.ranges {
 		for n := range e.heapSorts {
@@ -1355,6 +1406,9 @@ func (e *Engine) applyMods(st *State, fr *Frame, ms *modSet) {
 				e.havocHeapArr(st, n)
 			}
 		}
+	}
+	if !loop {
+		return // a callee cannot change the caller's ghost state
 	}
 	// ghost counters
 	var gk []string
@@ -1479,7 +1533,7 @@ func (e *Engine) loopArrive(st *State, fr *Frame, from, head *ssa.BasicBlock) {
 	nl[key] = st.lockSig()
 	st.loopLocks = nl
 	ms := e.modsOf(head)
-	e.applyMods(st, fr, ms)
+	e.applyMods(st, fr, ms, true)
 	evalInvs(st, false)
 	// phis at the loop head are loop-carried: havoc
 	idx := 0
